@@ -97,9 +97,10 @@ Definition c07_cleaner_crash_recoverable_full : Prop := forall priv j, (j <= new
               fst (after_cleaner_kill priv j) = pre ++ follow2 VDNE K_DoesNotExist 0 VDNE.
 Theorem c07_cleaner_crash_recoverable_refuted : ~ c07_cleaner_crash_recoverable_full.
 Proof.
-  intros H. destruct (H false 18%nat) as [pre [E|E]]; [cbn; lia| |];
-    rewrite (cleaner_kill_table false 18) in E by (cbn; lia);
-    apply (f_equal (fun l => nth 1 (rev l) (0%nat, 0, 0))) in E; rewrite rev_app_distr in E; vm_compute in E; discriminate.
+  intros H. assert (Hj : (18 <= newcalls false + 8)%nat) by (cbn; lia).
+  destruct (H false 18%nat Hj) as [pre [E|E]];
+    rewrite (cleaner_kill_table false 18 Hj) in E;
+    apply (f_equal (fun l => nth 0 (rev l) (0%nat, 0, 0))) in E; rewrite rev_app_distr in E; vm_compute in E; discriminate E.
 Qed.
 Print Assumptions c07_cleaner_crash_recoverable_refuted.
 Theorem c07_cleaner_crash_recoverable_partial : forall priv j, (j <= newcalls priv + 8)%nat ->
